@@ -115,16 +115,79 @@ let print_send (r : crend) : string =
   let a = match r.rd_a with Some v -> string_of_bytes v | None -> "<no value>" in
   Printf.sprintf "%s/%s/%s/%s/1" (string_of_n r.rd_id) (hex_of_string (print_reqmap r.rd_vars)) rf a
 
+let sample_strs sname evs =
+  List.concat_map (function
+      | EvSampleOk (_, nm, st) -> [ Printf.sprintf "%s/%s/0" (hex_of_string (sname ^ "." ^ string_of_bytes nm)) (string_of_z st) ]
+      | EvSampleFail (_, nm, _) -> [ Printf.sprintf "%s/0/1" (hex_of_string (sname ^ "." ^ string_of_bytes nm ^ "|__EMPTY__")) ]
+      | _ -> []) evs
+
+(* model side: the dump of the tree the templater was given *)
 let print_shot (scens : cscen list) (exps : (creq * z) list list) (sr : shot_res) : string =
   let si = int_of_nat sr.sr_scen in
   let sname = string_of_bytes (List.nth scens si).sc_name in
   let sends = List.concat_map (function EvSend (_, r) -> [ print_send r ] | _ -> []) sr.sr_events in
-  let samples = List.concat_map (function
-      | EvSampleOk (_, nm, st) -> [ Printf.sprintf "%s/%s/0" (hex_of_string (sname ^ "." ^ string_of_bytes nm)) (string_of_z st) ]
-      | EvSampleFail (_, nm, _) -> [ Printf.sprintf "%s/0/1" (hex_of_string (sname ^ "." ^ string_of_bytes nm ^ "|__EMPTY__")) ]
-      | _ -> []) sr.sr_events in
   Printf.sprintf "[%s exp=%s sends=%s samples=%s pause=1]" sname (print_expansion (List.nth exps si))
-    (join "," sends) (join "," samples)
+    (join "," sends) (join "," (sample_strs sname sr.sr_events))
+
+(* specification side: scenario from spec_ring, expansion from spec_expand, and the variables
+   each template may see from [visible] applied to the history of the earlier steps *)
+let spec_vars (names : n list list) (evs : cevent list) (j : nat) : n list reqmap =
+  let rec find = function
+    | EvRender (j', nm, _, h, pv) :: _ when j' = j ->
+        List.concat_map (fun name -> match visible h nm pv name with Some sv -> [ (name, sv) ] | None -> []) names
+    | _ :: r -> find r
+    | [] -> [] in
+  find evs
+
+let print_shot_spec (names : n list list) (sname : string) (steps : (creq * z) list) (sr : shot_res) : string =
+  let sends = List.concat_map (function
+      | EvSend (j, r) -> [ print_send { r with rd_vars = spec_vars names sr.sr_events j } ]
+      | _ -> []) sr.sr_events in
+  Printf.sprintf "[%s exp=%s sends=%s samples=%s pause=1]" sname (print_expansion steps)
+    (join "," sends) (join "," (sample_strs sname sr.sr_events))
+
+let rec uniq = function [] -> [] | x :: r -> x :: uniq (List.filter (fun y -> y <> x) r)
+
+(* documented expansion of every scenario (None where C15_expand's hypotheses do not hold) *)
+let spec_exps rq sc = List.map (fun s -> match items_of rq sc s with
+    | Some items -> Some (spec_expand items)
+    | None -> None) sc
+
+let spec_ring_ok sc =
+  weights_ok_b sc && (let ns = List.map (fun s -> s.sc_name) sc in List.length (uniq ns) = List.length ns)
+
+(* the executable specification order_stop_b on one observed shot "[name exp=.. sends=.. samples=.. pause=..]" *)
+let obs_shot_ok (sname : string) (steps : (creq * z) list) (chunk : string) : bool =
+  let fields = String.split_on_char ' ' chunk in
+  let get k = List.fold_left (fun acc f ->
+      let kl = String.length k in
+      if String.length f > kl && String.sub f 0 (kl + 1) = k ^ "=" then Some (String.sub f (kl + 1) (String.length f - kl - 1)) else acc) None fields in
+  match get "sends", get "samples", get "pause" with
+  | Some sends, Some samples, Some "1" ->
+      let ids = List.map (fun e -> n_of_string (List.hd (String.split_on_char '/' e))) (split_on ',' sends) in
+      let pre = sname ^ "." in
+      let smp = List.map (fun e ->
+          match String.split_on_char '/' e with
+          | [tags; _; err] ->
+              let t = string_of_bytes (bytes_of_hex tags) in
+              let t = if String.length t >= String.length pre && String.sub t 0 (String.length pre) = pre
+                then String.sub t (String.length pre) (String.length t - String.length pre) else "?" ^ t in
+              let suffix = "|__EMPTY__" in
+              let failed = err <> "0" in
+              let t = if failed && String.length t >= String.length suffix
+                         && String.sub t (String.length t - String.length suffix) (String.length suffix) = suffix
+                then String.sub t 0 (String.length t - String.length suffix) else if failed then "?" ^ t else t in
+              (bs t, not failed)
+          | _ -> (bs "?", false)) (split_on ',' samples) in
+      order_stop_b (c_step_obs steps) ids smp
+  | _ -> false
+
+let split_shots (obs : string) : string list =
+  (* "ok [a] [b]" -> ["a"; "b"] *)
+  let parts = String.split_on_char '[' obs in
+  match parts with
+  | _ :: rest -> List.map (fun p -> match String.index_opt p ']' with Some i -> String.sub p 0 i | None -> p) rest
+  | [] -> []
 
 let build_of tables reqs scens =
   let src = parse_tables tables and rq = parse_reqs reqs and sc = parse_scens scens in
@@ -163,7 +226,7 @@ let predict (c : string) (obs : string) : string * string * bool =
   match split_blank c with
   | ["parse"; h] ->
       let p = print_pshoot (parse_shoot (bytes_of_hex h)) in
-      (p, "ok", String.length h > 4)
+      (p, "ok", false)
   | "pp" :: form :: name :: nl :: sl :: b ->
       let b = Array.of_list (List.map bytes_of_hex b) in
       let nm = bytes_of_hex name and nb = bytes_of_hex nl and sb = bytes_of_hex sl in
@@ -194,44 +257,58 @@ let predict (c : string) (obs : string) : string * string * bool =
         (p, verdict (obs = ZT.to_string (List.fold_left ZT.gcd ZT.zero l)) "GCDM of positive weights", true)
       else (p, "ok", false)
   | ["build"; nacq; tables; reqs; scens] ->
-      let (_, _, sc, b) = build_of tables reqs scens in
+      let (_, rq, sc, b) = build_of tables reqs scens in
       (match b with
        | BuildOk (exps, ring) ->
-           let names = List.map (fun k ->
-               match deliver ring (nat_of_int k) with
-               | Some i -> Some (int_of_nat i)
-               | None -> None) (seq 0 (int_of_string nacq)) in
-           let idx = List.filter_map (fun x -> x) names in
+           let nacq = int_of_string nacq in
            let nm i = string_of_bytes (List.nth sc i).sc_name in
-           let seen = ref [] in
-           List.iter (fun i -> if not (List.mem i !seen) then seen := !seen @ [ i ]) idx;
-           let p = Printf.sprintf "ok ring=%s exp=%s" (String.concat "," (List.map nm idx))
-               (String.concat ";" (List.map (fun i -> nm i ^ ":" ^ print_expansion (List.nth exps i)) !seen)) in
-           (* specification side: ring from ZT.gcd, expansion from the documented reading *)
-           let ws = List.map (fun s -> s.sc_weight) sc in
-           let sring = spec_ring ws in
-           let slen = List.length sring in
-           let sidx = List.map (fun k -> int_of_nat (List.nth sring (k mod slen))) (seq 0 (int_of_string nacq)) in
-           let weights_ok = List.for_all (fun s -> ZT.sign (zt_of_z s.sc_weight) >= 0) sc in
-           let want_ring = String.concat "," (List.map nm sidx) in
-           let obs_ring = (match split_blank obs with
-               | "ok" :: r :: _ when String.length r > 5 -> String.sub r 5 (String.length r - 5)
-               | _ -> "?") in
-           let v = if weights_ok && obs_ring <> want_ring then "BAD:ring order is not weight/gcd copies of each scenario in listed order"
-             else if obs <> p then "BAD:expansion differs from the documented reading of the request list"
-             else "ok" in
-           (p, v, List.length sc > 1)
-       | f -> (build_fail f, "ok", false))
+           let render ring_idx exp_of =
+             let seen = ref [] in
+             List.iter (fun i -> if not (List.mem i !seen) then seen := !seen @ [ i ]) ring_idx;
+             Printf.sprintf "ok ring=%s exp=%s" (String.concat "," (List.map nm ring_idx))
+               (String.concat ";" (List.map (fun i -> nm i ^ ":" ^ print_expansion (exp_of i)) !seen)) in
+           let idx = List.filter_map (fun k -> match deliver ring (nat_of_int k) with
+               | Some i -> Some (int_of_nat i) | None -> None) (seq 0 nacq) in
+           let p = render idx (fun i -> List.nth exps i) in
+           (* specification side *)
+           let sidx = if spec_ring_ok sc then begin
+               let sring = spec_ring (List.map (fun s -> s.sc_weight) sc) in
+               let slen = List.length sring in
+               List.map (fun k -> int_of_nat (List.nth sring (k mod slen))) (seq 0 nacq) end else idx in
+           let sexps = spec_exps rq sc in
+           let w = render sidx (fun i -> match List.nth sexps i with Some e -> e | None -> List.nth exps i) in
+           (p, verdict (obs = w) "ring order / expansion differs from the documented reading", List.length sc > 1)
+       | f ->
+           (* construction must succeed when every list reads and the weights are fine *)
+           let readable = spec_ring_ok sc && List.for_all (fun e -> e <> None) (spec_exps rq sc) in
+           (build_fail f, verdict (not readable) "a well-formed description was rejected by the model", false))
   | ["shot"; nshots; script; tables; reqs; scens] ->
-      let (src, _, sc, b) = build_of tables reqs scens in
+      let (src, rq, sc, b) = build_of tables reqs scens in
       (match b with
        | BuildOk (exps, ring) ->
            if not (src_wf src) then ("unmodelled-empty-table", "ok", false)
            else begin
              let rs = run_shots src exps ring O (nat_of_int (int_of_string nshots)) (world0 (parse_script script)) in
              let p = "ok " ^ String.concat " " (List.map (print_shot sc exps) rs) in
+             let names = uniq (List.map (fun r -> r.cq_name) rq) in
+             let sexps = spec_exps rq sc in
+             let sring = if spec_ring_ok sc then Some (spec_ring (List.map (fun s -> s.sc_weight) sc)) else None in
+             let spec_of k (r : shot_res) =
+               let si = (match sring with
+                   | Some sr -> int_of_nat (List.nth sr (k mod List.length sr))
+                   | None -> int_of_nat r.sr_scen) in
+               let steps = (match List.nth sexps si with Some e -> e | None -> List.nth exps si) in
+               (string_of_bytes (List.nth sc si).sc_name, steps) in
+             let specs = List.mapi spec_of rs in
+             let w = "ok " ^ String.concat " " (List.map2 (fun (sname, steps) r -> print_shot_spec names sname steps r) specs rs) in
+             let chunks = split_shots obs in
+             let structural = List.length chunks = List.length rs
+                              && List.for_all2 (fun (sname, steps) c -> obs_shot_ok sname steps c) specs chunks in
              let failed = List.exists (fun r -> r.sr_out <> Done) rs in
-             (p, verdict (obs = p) "shot log differs from the specified execution", failed || List.length rs > 1)
+             let v = if not structural then "BAD:order/stop: samples and requests are not one per step up to the first failing step"
+               else if obs <> w then "BAD:shot log differs from the specified execution (variables visible to a template, scenario order or expansion)"
+               else "ok" in
+             (p, v, failed || List.length rs > 1)
            end
        | f -> (build_fail f, "ok", false))
   | ["inst"; _inst; total; tables; reqs; scens] ->
